@@ -13,7 +13,7 @@
      H<k>                                      MK / MKNULL (caller memory: no library call, no delta)
      -                                         DROP
      H<k> x<bytes> d<delta> | H<k> NODATA d<delta>        a library buffer (TESTBUF, TOCBOR, PAYLOAD)
-     H<k> x<src> x<dst> <time> <seq> <lifetime> d<delta>  META
+     H<k> x<src> x<dst> <time> <seq> <lifetime> d<delta>  META    (NULL d0 when an EID text contains U+0000)
      H<k> d<delta> | NULL d0                              FROM, NEW
      T d0 | F d0                                          VALID
      - d<delta>                                           BFREE / BNDFREE / MFREE
